@@ -18,7 +18,7 @@ ASSUMPTIONS = ["DQN hard copy is compared bit-exactly leaf by leaf; SAC Polyak w
 
 def units(tier):
     return [{"name": n, "timeout": 2400} for n in ("budget_onpolicy", "budget_offpolicy", "dqn_target", "sac_schedule",
-                                                     "counter")]
+                                                     "counter", "learn_targets")]
 
 
 def _clock_env(ctx, kind):
@@ -257,7 +257,78 @@ def u_counter(ctx):
                 ctx.violation("environment-steps-per-iteration-wrong", {**info, "clock": clock, "want_each": k * S})
 
 
+def u_learn_targets(ctx):
+    """The target-network schedule *inside learn()*: an observer whose on_iteration hands the critics / target critics
+    (SAC) or the online / target Q-networks (DQN) it finds in the algorithm state to a recorder (debug callback at the
+    top level of the scan body). Between two consecutive observations exactly one per-iteration target update lies:
+    SAC  T[i+1] = tau*Q[i] + (1-tau)*T[i];  DQN  T[i+1] = Q[i] when iteration i+1 is a multiple of the interval, else T[i]."""
+    import jax
+    import jax.numpy as jnp
+    from vlib.common import inexact_leaves
+    from vlib.stubs import ProbeCallback, Recorder
+
+    class TargetProbe(ProbeCallback):
+        def on_iteration(self, c, *, key):
+            rec = self.recorder
+            st = c.locals.get("state")
+            if hasattr(st, "qf1"):
+                pair = (inexact_leaves_j(st.qf1), inexact_leaves_j(st.qf1_target), inexact_leaves_j(st.qf2), inexact_leaves_j(st.qf2_target))
+            else:
+                pair = (inexact_leaves_j(st.policy), inexact_leaves_j(st.target_policy))
+
+            def emit(it, *arrs):
+                rec.add(("targets", int(it), [np.asarray(a) for a in arrs]))
+
+            jax.debug.callback(emit, c.iteration_count, *pair, ordered=True)
+            return super().on_iteration(c, key=key)
+
+    def inexact_leaves_j(tree):
+        return jnp.concatenate([jnp.ravel(x) for x in jax.tree.leaves(tree) if hasattr(x, "dtype") and jnp.issubdtype(x.dtype, jnp.inexact)])
+
+    for c in range(ctx.n(4, 16)):
+        name = ["SAC", "DQN"][c % 2]
+        env = _clock_env(ctx, "box" if name == "SAC" else "discrete")
+        E, S = int(ctx.rng.integers(1, 3)), int(ctx.rng.integers(1, 4))
+        kw = {"tau": float(ctx.rng.choice([0.25, 0.05, 0.5]))} if name == "SAC" else {"target_update_interval": int(ctx.rng.integers(2, 4))}
+        algo, pol = _mk(ctx, name, env, E, S, **kw)
+        iters = int(ctx.rng.integers(4, 8))
+        rec = Recorder()
+        out = algo.learn(env, pol, iters * E * S, key=ctx.key(500 + c), callback=TargetProbe(rec, tag=name))
+        jax.block_until_ready(jax.tree.leaves(out))
+        jax.effects_barrier()
+        obs = [e for e in rec.snapshot() if e[0] == "targets"]
+        info = {"algo": name, "E": E, "S": S, **kw, "iterations": iters}
+        ctx.case(info, nontrivial=True, cls=f"learn-targets/{name}")
+        if len(obs) != iters:
+            ctx.inconc(f"target probe saw {len(obs)} observations in {iters} iterations")
+            continue
+        for (_, it0, a0), (_, it1, a1) in zip(obs[:-1], obs[1:]):
+            ctx.monitor("target_updates_inside_learn_checked")
+            if name == "SAC":
+                tau = kw["tau"]
+                for q, t0, t1 in ((a0[0], a0[1], a1[1]), (a0[2], a0[3], a1[3])):
+                    want = tau * q.astype(np.float64) + (1 - tau) * t0.astype(np.float64)
+                    err = float(np.max(np.abs(t1 - want)))
+                    if err > 2e-6:
+                        twice = tau * q.astype(np.float64) + (1 - tau) * want
+                        key = "sac-polyak-applied-twice" if float(np.max(np.abs(t1 - twice))) <= 2e-6 else "sac-polyak-update-wrong"
+                        ctx.violation(key, {**info, "where": "inside learn()", "between_iterations": [it0, it1], "max_error": err})
+                        break
+            else:
+                # the observation at iteration count it1 sees the target as left by the hook of the iteration before
+                k = kw["target_update_interval"]
+                want = a0[0] if it0 % k == 0 else a0[1]  # it0 = the counter after the iteration that was just observed
+                if not np.array_equal(a1[1], want):
+                    ctx.violation("dqn-target-not-online-at-interval", {**info, "where": "inside learn()", "between_iterations": [it0, it1],
+                                                                        "equals_online": bool(np.array_equal(a1[1], a0[0])),
+                                                                        "unchanged": bool(np.array_equal(a1[1], a0[1]))})
+                    break
+    ctx.require("target_updates_inside_learn_checked", 8)
+
+
 def run_unit(name, ctx):
+    if name == "learn_targets":
+        return u_learn_targets(ctx)
     if name == "budget_onpolicy":
         _budget(ctx, ["PPO", "A2C", "REINFORCE"], ctx.n(3, 15))
     elif name == "budget_offpolicy":
